@@ -78,6 +78,10 @@ def conclude(prop, tier, seed, results, wall, reg):
         for kind, mark in (("post", "/post/"), ("loop-init", "/init/"), ("loop-preserved", "/preserved/"), ("hint", "/hint/")):
             if o.get("kind") == kind and mark in n:
                 clause = n.split(mark, 1)[1]
+        if "/must-raise/" in n:
+            # "must not return under this condition" (the missing-raise side of a raises clause); the
+            # other side - raised although the condition does not hold - is never attributed
+            clause = "must-raise/" + n.split("/must-raise/", 1)[1]
         if clause is None:
             return False
         try:
